@@ -40,6 +40,8 @@ var otherTypeValues = []struct {
 }{
 	{"string", `"x"`}, {"number", `1.5`}, {"integer", `1`}, {"boolean", `true`},
 	{"array", `[]`}, {"array", `[1]`}, {"object", `{}`}, {"object", `{"k":1}`},
+	// the "empty" value of each type: code that mistakes empty for absent shows here
+	{"string", `""`}, {"integer", `0`}, {"boolean", `false`},
 }
 
 // Docs enumerates the base document and every document that differs from it
